@@ -16,7 +16,7 @@ CONSTANTS
   TsTypes = {"d"}
   JsonAttr = TRUE
   Emit = TRUE
-  OptIsDynamic = FALSE
+  OptIsDynamic = TRUE
   OptSkipDynamic = FALSE
   Edits = FALSE
 INVARIANT NoPendingInv
